@@ -127,6 +127,26 @@ def quiet_logging():
     lg.setLevel(logging.ERROR)
 
 
+class Demote:
+    """a Result view for inputs OUTSIDE the property's quantifier, or for observations the property text does not speak about: what
+    would be an oracle failure becomes a model/implementation disagreement (red as `no-failing-input-found`, never a concrete replay)"""
+
+    def __init__(self, res, why):
+        object.__setattr__(self, "_res", res)
+        object.__setattr__(self, "_why", why)
+
+    def fail(self, what, case, observed, required, signature=None):
+        self._res.count("demoted.%s.%s" % (self._why, signature or what))
+        self._res.disagree("C06:demoted:%s:%s" % (self._why, signature or what), {k: v for k, v in dict(case).items() if k not in ("raw", "thetas")},
+                           str(observed)[:300], str(required)[:300])
+
+    def __getattr__(self, name):
+        return getattr(self._res, name)
+
+    def __setattr__(self, name, value):
+        setattr(self._res, name, value)
+
+
 # ------------------------------------------------------------------ hardening helpers
 SHARED = {}
 
@@ -353,6 +373,10 @@ def run_case(ctx, res, env, case, lines, expect, meta, light=False):
     scr = S.build(raw)
     pids, mask, sids, tids, plates, observed = facts(scr)
     cands = expected_candidates(scr, batch)
+    if any(b not in plates for b in batch) or len(set(batch)) != len(batch):
+        # "all batches of already selected plate ids": an id that is not a plate of the screen, or the same plate twice, is malformed input
+        res = Demote(res, "batch-outside-quantifier")
+        res.count("outside-quantifier.batch-unknown-or-repeated-id")
     Scorer.table = table
     ttok = "T" + S.lst("%d:%s" % (k, score_tok(v)) for k, v in sorted(table.items()))
     atok = "none" if allowed is None else ids_tok(allowed)
@@ -384,8 +408,8 @@ def run_case(ctx, res, env, case, lines, expect, meta, light=False):
                 h = score_chunk(scorer=(shared("table", Scorer) if reuse else Scorer()), thetas=None, screen=scr, distance_matrix=None,
                                 rng=np.random.default_rng(0), n_chunks=n, chunk_index=idx, batch_plate_ids=given)
                 if given != given0:
-                    res.fail("score_chunk changed the batch list it was given", dict(case, n=n, idx=idx), str(given), str(given0),
-                             signature="C06:input-mutated")
+                    Demote(res, "not-a-clause").fail("score_chunk changed the batch list it was given", dict(case, n=n, idx=idx), str(given), str(given0),
+                                                     signature="C06:input-mutated")
                 handed = Scorer.log[-1]
                 out = "ok " + S.lst(("%d:%s" % (k, S.sel_tok(sel)) for k, sel, _ in handed), ";")
             except Exception as e:   # noqa: BLE001
@@ -408,13 +432,20 @@ def run_case(ctx, res, env, case, lines, expect, meta, light=False):
             fn = env.path("chunk") + ".h5"
             h.save_h5(fn)
             h2 = ChunkedScoresHolder.load_h5(fn)
-            if show_holder(h2) != show_holder(h):
-                res.fail("save_h5/load_h5 changed a scores holder", dict(case, n=n, idx=idx), show_holder(h2), show_holder(h), signature="C06:saveload")
+            cells = lambda x: ([int(v) for v in x.plate_ids], [enc_score(float(v)) if not np.isnan(float(v)) else "nan" for v in x.scores])   # noqa: E731
+            if cells(h2) != cells(h):
+                res.fail("save_h5/load_h5 changed the (plate, score) cells of a scores holder", dict(case, n=n, idx=idx), show_holder(h2), show_holder(h),
+                         signature="C06:saveload")
+            elif show_holder(h2) != show_holder(h):
+                Demote(res, "not-a-clause").fail("save_h5/load_h5 changed size / current_index of a scores holder", dict(case, n=n, idx=idx), show_holder(h2),
+                                                 show_holder(h), signature="C06:saveload")
             elif holder_state(h2) != holder_state(h):
                 # attribute completeness: every attribute found by introspection, with dtype and shape
                 d_ = [k for k in set(holder_state(h)) | set(holder_state(h2)) if holder_state(h).get(k) != holder_state(h2).get(k)]
-                res.fail("save_h5/load_h5 changed an attribute of a scores holder", dict(case, n=n, idx=idx),
-                         {k: str(holder_state(h2).get(k))[:120] for k in d_}, {k: str(holder_state(h).get(k))[:120] for k in d_}, signature="C06:saveload")
+                # dtype / bookkeeping attributes are not what the property speaks about (the (plate, score) cells are, above)
+                Demote(res, "not-a-clause").fail("save_h5/load_h5 changed an attribute of a scores holder", dict(case, n=n, idx=idx),
+                                                 {k: str(holder_state(h2).get(k))[:120] for k in d_}, {k: str(holder_state(h).get(k))[:120] for k in d_},
+                                                 signature="C06:saveload")
             holders.append(h2)
             files.append(fn)
         if failed is not None:
@@ -477,15 +508,15 @@ def run_case(ctx, res, env, case, lines, expect, meta, light=False):
                                                 policy=((shared("policy", Policy) if reuse else Policy()) if pol is not None else None),
                                                 batch_plate_ids=given, rng=np.random.default_rng(0))
                         if holder_state(comb) != before or given != given0:
-                            res.fail("select_next_plate changed the scores holder / batch list it was given", dict(case, n=n, order=list(order), policy=pol),
-                                     "changed", "unchanged", signature="C06:input-mutated")
+                            Demote(res, "not-a-clause").fail("select_next_plate changed the scores holder / batch list it was given",
+                                                             dict(case, n=n, order=list(order), policy=pol), "changed", "unchanged", signature="C06:input-mutated")
                         got_id = None if sel is None else int(sel.plate_id)
                         stext = "ok " + ("-1" if got_id is None else str(got_id))
                         if total:
                             select_oracle(res, case, scr, batch, table, pol, got_id, "select_next_plate", {"n": n, "order": list(order), "policy": pol})
                         if pol is not None and Policy.log and Policy.log[-1][1] != cands:
-                            res.fail("policy was not given the unobserved plates outside the batch (sorted)", dict(case, n=n), Policy.log[-1][1], cands,
-                                     signature="C06:policy-input")
+                            Demote(res, "not-a-clause").fail("policy was not given the unobserved plates outside the batch (sorted)", dict(case, n=n),
+                                                             Policy.log[-1][1], cands, signature="C06:policy-input")
                     except Exception as e:   # noqa: BLE001
                         stext = S.err_tok(e)
                         if total:
@@ -507,13 +538,13 @@ def run_case(ctx, res, env, case, lines, expect, meta, light=False):
     res.count("class.input-mutation.screen-batch-holder")
     if snap_screen(scr) != snap0:
         now = snap_screen(scr)
-        res.fail("scoring / selection wrote into the screen", dict(case), [k for k in snap0 if snap0[k] != now[k]], "screen unchanged",
-                 signature="C06:input-mutated")
+        Demote(res, "not-a-clause").fail("scoring / selection wrote into the screen", dict(case), [k for k in snap0 if snap0[k] != now[k]], "screen unchanged",
+                                         signature="C06:input-mutated")
     for call in Scorer.refs:
         for k, obj, selcopy in call:
             if not np.array_equal(np.asarray(obj.selection_vector), selcopy):
-                res.fail("a subset handed to the scorer was changed by a later call (shared storage)", dict(case), {"plate": k}, "unchanged",
-                         signature="C06:aliasing")
+                Demote(res, "not-a-clause").fail("a subset handed to the scorer was changed by a later call (shared storage)", dict(case), {"plate": k}, "unchanged",
+                                                 signature="C06:aliasing")
                 break
     Scorer.refs = []
     # ---- requests outside the quantifier that the model also describes: n_chunks = 0 (numpy: ValueError), chunk_index = n_chunks (IndexError)
@@ -563,6 +594,50 @@ def run_case(ctx, res, env, case, lines, expect, meta, light=False):
                 lines.append("chunk %s %d %d %s %s" % (ids_tok(batch), n, idx, tok, rtok))
                 expect.append(out)
                 meta.append(("chunk", dict(case, n=n, idx=idx, scorer=kind)))
+    # ---- items 10-12 on the scores side (every case)
+    if reuse:
+        # SizeScorer shared object on temporaries: the score of a plate is the size of THAT plate
+        sz = shared("size", SizeScorer)
+        for p_ in plates:
+            v_ = sz.score({p_: scr.get_plate(p_)}, None, None, np.random.default_rng(0), False)
+            if float(v_[p_]) != float(sum(1 for q in pids if q == p_)):
+                res.fail("a candidate was not scored on its own experiments: reused SizeScorer on a temporary plate", dict(case, plate=p_), repr(v_),
+                         sum(1 for q in pids if q == p_), signature="C06:shipped-total")
+        res.count("class.identity-cache.temporary-plates")
+        # RandomScorer shared object: seed 5 then seed 6 == fresh with seed 6 (values and generator state)
+        rs = shared("random", RandomScorer)
+        keys = {p_: None for p_ in plates}
+        rs.score(keys, None, None, np.random.default_rng(5), False)
+        g1, g2 = np.random.default_rng(6), np.random.default_rng(6)
+        a_ = rs.score(keys, None, None, g1, False)
+        b_ = RandomScorer().score(keys, None, None, g2, False)
+        res.count("class.reuse-different-seed.random-scorer")
+        if list(a_.items()) != list(b_.items()) or str(g1.bit_generator.state) != str(g2.bit_generator.state):
+            res.fail("a RandomScorer object used before with another generator does not score like a fresh one", dict(case), list(a_.items())[:4],
+                     list(b_.items())[:4], signature="C06:shipped-total")
+    if total and len(cands) >= 2 and (not batch or batch_hits):
+        # instalments: the same path written twice (other content), and concat in steps
+        hs_ = []
+        for idx in range(2):
+            hs_.append(score_chunk(scorer=Scorer(), thetas=None, screen=scr, distance_matrix=None, rng=np.random.default_rng(0), n_chunks=2,
+                                   chunk_index=idx, batch_plate_ids=list(batch)))
+        cells = lambda x: sorted(zip([int(v) for v in x.plate_ids], [enc_score(float(v)) for v in x.scores]))   # noqa: E731
+        fn = env.path("twice") + ".h5"
+        hs_[0].save_h5(fn)
+        hs_[1].save_h5(fn)
+        back = ChunkedScoresHolder.load_h5(fn)
+        res.count("class.instalments.same-path-saved-twice")
+        if cells(back) != cells(hs_[1]):
+            res.fail("a scores file written twice does not hold the cells of the last holder saved", dict(case, n=2), cells(back), cells(hs_[1]),
+                     signature="C06:saveload")
+        extra_ = score_chunk(scorer=Scorer(), thetas=None, screen=scr, distance_matrix=None, rng=np.random.default_rng(0), n_chunks=1, chunk_index=0,
+                             batch_plate_ids=list(batch))
+        one = ChunkedScoresHolder.concat([copy.deepcopy(x) for x in (hs_[0], hs_[1], extra_)])
+        two = ChunkedScoresHolder.concat([ChunkedScoresHolder.concat([copy.deepcopy(hs_[0]), copy.deepcopy(hs_[1])]), copy.deepcopy(extra_)])
+        res.count("class.instalments.concat-in-steps")
+        if cells(one) != cells(two):
+            res.fail("combining chunk holders in two steps gives other (plate, score) cells than combining them at once", dict(case, n=2), cells(two), cells(one),
+                     signature="C06:concat-multiset")
     return cands
 
 
@@ -647,6 +722,8 @@ def run_cli(ctx, res, env, case, scr, raw, batch, table, total, allowed, n, orde
     from batchie.scoring.main import ChunkedScoresHolder
     Scorer, Policy = plugins()
     thetas, dm = env.cli_files()
+    if n >= 2:
+        res.count("class.budget.cli-n-chunks-and-chunk-index-not-default")    # --n-chunks / --chunk-index both default to values that would hide a dropped argument
     data = env.path("screen") + ".h5"
     scr.save_h5(data)
     files = []
@@ -872,11 +949,15 @@ def run(ctx, res):
             res.count("class.size.plate>64-wells")
             obsd = {p_: wrng.random() < 0.3 for p_ in range(P)}
             obsd[wide_plate] = False
+            for b_ in (127, 128, 255, 256, 257):
+                if b_ < P:
+                    obsd[b_] = False
+                    res.count("class.int-width.plate-id-%d-scored-saved-loaded" % b_)
             raw = dict(ctrl="control", arity=2, tnames=tn, tdoses=td, snames=sn, pnames=pn, obs=[0.5] * len(pn),
                        mask=[obsd[int(x[1:])] for x in pn], tmap=None, smap=None)
             unobs = [p_ for p_ in range(P) if not obsd[p_]]
             hi = [p_ for p_ in unobs if p_ >= (256 if P > 280 else 128)]
-            batch = wrng.sample(hi, 2)
+            batch = wrng.sample([x for x in hi if x not in (127, 128, 255, 256, 257)], 2)
             table = {p_: wrng.choice(SCORE_POOL[3:]) for p_ in range(P)}
             # the minimum sits on plates with large ids, twice (a tie)
             for p_ in wrng.sample([x for x in hi if x not in batch], 2):
@@ -976,6 +1057,33 @@ def dbal_total(ctx, res):
                 if sorted(got) != sorted(cands):
                     res.fail("GaussianDBALScorer: scored plates != candidates, each once", {"kind": "dbal", "raw": raw, "batch": batch, "n": n},
                              sorted(got), sorted(cands), signature="C06:dbal-total")
+        from harness import c05
+        sh = shared("dbal", lambda: GaussianDBALScorer(max_chunk=2, max_triples=20))
+        # identity-keyed caches / object lifetime: the shared scorer on TEMPORARY plates (`screen.get_plate(p)` dies after the call, CPython
+        # reuses its address for the next one); every candidate must get the score a fresh scorer gives to its own subset
+        for rep in range(2):
+            for p_ in unobs:
+                a_ = sh.score({p_: scr.get_plate(p_)}, dm, th, np.random.default_rng(7), False)
+                b_ = GaussianDBALScorer(max_chunk=2, max_triples=20).score({p_: scr.get_plate(p_)}, dm, th, np.random.default_rng(7), False)
+                res.count("class.identity-cache.temporary-plates")
+                if {int(k): S.bits(float(v)) for k, v in a_.items()} != {int(k): S.bits(float(v)) for k, v in b_.items()}:
+                    res.fail("a candidate was not scored on its own experiments: a reused scorer handed a temporary plate returns another result than a "
+                             "fresh scorer on the same plate", {"kind": "dbal", "raw": raw, "batch": [], "n": 1, "plate": p_},
+                             {int(k): repr(float(v)) for k, v in a_.items()}, {int(k): repr(float(v)) for k, v in b_.items()}, signature="C06:scorer-reuse")
+        # reuse with a DIFFERENT generator: after a call with seed 1 the same object is called with seed 2: output, draw trace and final generator
+        # state must be those of a fresh object called with seed 2
+        if unobs:
+            plates_ = {p_: scr.get_plate(p_) for p_ in unobs}
+            sh.score(dict(plates_), dm, th, c05.RecRng(1), False)
+            r1, r2 = c05.RecRng(2), c05.RecRng(2)
+            a_ = sh.score(dict(plates_), dm, th, r1, False)
+            b_ = GaussianDBALScorer(max_chunk=2, max_triples=20).score(dict(plates_), dm, th, r2, False)
+            res.count("class.reuse-different-seed.dbal-scorer")
+            same = ({int(k): S.bits(float(v)) for k, v in a_.items()} == {int(k): S.bits(float(v)) for k, v in b_.items()} and r1.calls == r2.calls
+                    and str(r1.g.bit_generator.state) == str(r2.g.bit_generator.state))
+            if not same:
+                res.fail("a scorer object used before with another generator does not score like a fresh one (scores / draws / generator state)",
+                         {"kind": "dbal", "raw": raw, "batch": [], "n": 1}, {"draws": r1.calls[:2]}, {"draws": r2.calls[:2]}, signature="C06:scorer-reuse")
         res.count("dbal.screens")
 
 
@@ -1039,8 +1147,25 @@ def cross_process(ctx, res, env, cases):
         res.count("class.cross-process.other-hashseed")
         if a != b:
             d = next((i for i, (x, y) in enumerate(zip(a, b)) if x != y), min(len(a), len(b)))
-            res.fail("scoring / selection differs in a second interpreter process (other PYTHONHASHSEED)", dict(c, via="subprocess"),
-                     {"this_process": str(a[d:d + 1])[:400], "other_process": str(b[d:d + 1])[:400]}, "identical", signature="C06:cross-process")
+            # the clause: every chunk index is computed by its own process; even indices taken from this process and odd ones from the other
+            # must still cover the candidates exactly once
+            scr_ = S.build(c["raw"])
+            want = sorted(expected_candidates(scr_, c["batch"]))
+            bad = None
+            for n_ in c["ns"]:
+                mixed = []
+                for src, tr in ((0, a), (1, b)):
+                    mixed += [k for e in tr if e[0] == "inputs" and e[1] == n_ and e[2] % 2 == src for k, _ in e[3]]
+                if sorted(mixed) != want and not any(e[0] == "error" and e[1] == n_ for e in a + b):
+                    bad = (n_, sorted(mixed))
+                    break
+            if bad is not None:
+                res.fail("chunk indices computed in different interpreter processes (other PYTHONHASHSEED) do not cover the candidates exactly once",
+                         dict(c, via="subprocess"), {"n_chunks": bad[0], "scored": bad[1]}, want, signature="C06:cross-process")
+            else:
+                Demote(res, "not-a-clause").fail("scoring / selection trace differs in a second interpreter process", dict(c, via="subprocess"),
+                                                 {"this_process": str(a[d:d + 1])[:300], "other_process": str(b[d:d + 1])[:300]}, "identical",
+                                                 signature="C06:cross-process")
 
 
 # ------------------------------------------------------------------ the composed model (Model/ScorePipeline.lean) vs the real pipeline
